@@ -148,7 +148,14 @@ func (l *Lexer) bracesToken(tok token.TokenType, literal string) token.Token {
 
 func (l *Lexer) illegalToken() token.Token {
 	l.tokenBegins()
-	return l.newToken(token.ILLEGAL, string(l.char))
+
+	tok := l.newToken(token.ILLEGAL, string(l.char))
+
+	// the illegal character is not consumed, the token ends where it begins
+	tok.Pos.EndCol = tok.Pos.StartCol
+	tok.Pos.EndLine = tok.Pos.StartLine
+
+	return tok
 }
 
 func (l *Lexer) directiveToken() token.Token {
